@@ -7,7 +7,14 @@
      W(sc, bl, data, ok)            every Write Without Encryption command that reached the tag
      Cut                            the tag stopped answering
      Ret(res, cap)                  how the call ended, the capacity nfcpy reported before it
-     View(k, v, reads, attr, mem, oth)  fresh reader's result, its read commands, full tag image
+     View(k, v, cap, wr, reads, attr, blocks, oth)  fresh reader's result (octets, capacity,
+                                    is_writeable), its read commands, full tag image
+
+   The attribute block travels as its 16 raw bytes (init.attr, W data, View.attr) and is parsed HERE
+   (ParseAttr) with the field layout of the Type 3 Tag operation specification, so every field of
+   it -- in particular the 24 bit Ln and the 16 bit Nmaxb at their extremes -- is judged by TLC.
+   Data blocks: init.blocks is the explicit block list, or empty with init.gen >= 0 for a tag whose
+   blocks are generated (T3Tag!GenBlk); View.blocks lists <<number, content>> of the explicit ones.
 
    The tag state is rebuilt by TLC from the W events (TagApply), every command must be the one the
    modelled procedure issues (conform), all T3Tag invariants are evaluated after every step, the
@@ -27,13 +34,11 @@ ParseAttr(d) == [ver |-> d[1], nbr |-> d[2], nbw |-> d[3], nmaxb |-> d[4] * 256 
                  rfu |-> SubSeq(d, 6, 9), writef |-> d[10], rwflag |-> d[11],
                  ln |-> d[12] * 65536 + d[13] * 256 + d[14],
                  ckok |-> (Sum(SubSeq(d, 1, 14)) = d[15] * 256 + d[16])]
-AttrOf(r) == [ver |-> r.ver, nbr |-> r.nbr, nbw |-> r.nbw, nmaxb |-> r.nmaxb, rfu |-> r.rfu,
-              writef |-> r.writef, rwflag |-> r.rwflag, ln |-> r.ln, ckok |-> r.ckok]
 
 TInit ==
     /\ tid \in 1..Len(Traces)
     /\ l = 1
-    /\ tag = [attr |-> AttrOf(I0.attr), mem |-> I0.mem, oth |-> I0.oth]
+    /\ tag = [attr |-> ParseAttr(I0.attr), mem |-> [nb |-> I0.nb, gen |-> I0.gen, w |-> I0.blocks], oth |-> I0.oth]
     /\ tag0 = tag
     /\ phys = [nbr |-> I0.phys.nbr, nbw |-> I0.phys.nbw]
     /\ pc = "idle" /\ op = "none" /\ msg = <<>> /\ ra = 0 /\ i = 0 /\ ncmd = 0 /\ last = NoCmd
@@ -70,11 +75,13 @@ Conform ==
     CASE Ev.a = "W" -> /\ EvCmd.sc = ExpCmd.sc /\ EvCmd.bl = ExpCmd.bl /\ EvCmd.dat = ExpCmd.dat
                        /\ Ev.ok = TagOk(tag, phys, EvCmd)
       [] Ev.a = "Ret" -> Ev.res = ExpRes /\ (op = "write" => Ev.cap = RepCap(tag0))
-      [] Ev.a = "View" -> Ev.reads = CodeReadPlan(tag)
+      [] Ev.a = "View" -> /\ Ev.reads = CodeReadPlan(tag)
+                          /\ Ev.k \in {"ndef", "notreadable"} => Ev.cap = RepCap(tag) /\ Ev.wr = Writeable(tag)
       [] OTHER -> TRUE
 \* the logged tag image is the state TLC rebuilt
 PostOk ==
-    CASE Ev.a = "View" -> /\ AttrOf(Ev.attr) = tag.attr /\ Ev.mem = tag.mem /\ Ev.oth = tag.oth
+    CASE Ev.a = "View" -> /\ ParseAttr(Ev.attr) = tag.attr /\ Ev.oth = tag.oth
+                          /\ {<<p[1], p[2]>> : p \in ToSet(Ev.blocks)} = {<<b, tag.mem.w[b]>> : b \in DOMAIN tag.mem.w}
       [] OTHER -> TRUE
 \* the fresh reader sees what the reference reader sees
 ViewOk ==
@@ -102,7 +109,7 @@ Why == IF ~ENABLED Guarded THEN <<"guard", pc>>
             <<"conform", pc,
               IF Ev.a = "W" THEN <<Brief(ExpCmd), TagOk(tag, phys, EvCmd)>>
               ELSE IF Ev.a = "Ret" THEN <<ExpRes, RepCap(tag0)>>
-              ELSE IF Ev.a = "View" THEN CodeReadPlan(tag) ELSE <<>> >>
+              ELSE IF Ev.a = "View" THEN <<RepCap(tag), Writeable(tag), Len(CodeReadPlan(tag))>> ELSE <<>> >>
        ELSE <<"post", pc>>
 
 Stuck ==
